@@ -10,6 +10,7 @@ R11.d  the classic path uses the same runner constructor and bootstrap program."
 import os
 
 import runner
+import inline
 from defs import Defs
 from flow import Flow
 from mir import callee_of, op_const, op_int, op_local, op_place, rv_operands
@@ -209,7 +210,24 @@ def run(tier="quick", replay=None):
 
     # ---------------- discover derivation sites ---------------------------------------
     sites = {}
-    for f in prog.fns.values():
+    absorbed = {}       # private same-module helper -> functions it was inlined into
+    views = {}
+
+    def view(f0):
+        """f0 with its private same-module helpers inlined (two levels): splitting an entry point into helpers, or folding
+        helpers back, does not change the derivation the rules see."""
+        if f0.path not in views:
+            base = inline.default_pred(prog, f0)
+            fv = inline.inlined(prog, f0, pred=lambda g: base(g) and g.parent == f0.parent and g.path != DETECT, depth=2)
+            views[f0.path] = fv
+            for h in fv.d.get("inlined", []):
+                absorbed.setdefault(h, set()).add(f0.path)
+        return views[f0.path]
+
+    for f0 in list(prog.fns.values()):
+        if f0.kind == "Closure" or not any(callee_of(t) == DETECT for _, t in f0.calls()):
+            continue
+        f = view(f0)
         calls = [(bb, t) for bb, t in f.calls() if (t.get("callee") or "") in (SET_OPT, SET_FE)]
         if not calls:
             continue
@@ -231,7 +249,7 @@ def run(tier="quick", replay=None):
     # are the helper's with the parameters replaced by the caller's argument expressions.
     helpers = {}
     for f in prog.fns.values():
-        if f.path in sites or f.kind == "Closure":
+        if f.path in sites or f.kind == "Closure" or f.path in absorbed:
             continue
         calls = [(bb, t) for bb, t in f.calls() if (t.get("callee") or "") in (SET_OPT, SET_FE)]
         if not calls or "HasCompilerOptsDelegation" in f.path or f.root.startswith("compiler::"):
@@ -390,6 +408,11 @@ def run(tier="quick", replay=None):
     # ---------------- R11.c one path ------------------------------------------------------------
     allowed_compile_callers = {p for p in feeding if not feeding[p]["via_field"]} | \
         {feeding[p]["via_field"][1] for p in feeding if feeding[p]["via_field"]}
+    # helpers folded into a site count as that site, provided nobody else calls them
+    callers = prog.callers()
+    for h, into in absorbed.items():
+        if into & allowed_compile_callers and all((c[0] in allowed_compile_callers or c[0] in absorbed) for c in callers.get(h, ())):
+            allowed_compile_callers = allowed_compile_callers | {h}
     ncall = 0
     for f, bb, t in prog.call_sites(lambda c: c == COMPILE_FILE):
         ncall += 1
@@ -423,7 +446,8 @@ def run(tier="quick", replay=None):
             continue
         reach = prog.reachable_fns([ent])
         via = LIB_ENTRY in reach
-        other = [p for p in allowed_compile_callers if p in reach and p != LIB_CORE]
+        other = [p for p in allowed_compile_callers if p in reach and p != LIB_CORE
+                 and not (p in absorbed and absorbed[p] <= {LIB_CORE})]
         R.check(via and not other, "R11.c", "R11.c|entry|%s" % ent, "%s:%s" % (g.file, g.line),
                 "auto: reaches the compiler only through compile_clvm_text",
                 "%s reaches the compiler other than through compile_clvm_text (via compile_clvm_text=%s, other sites=%s)" % (ent, via, other),
@@ -508,7 +532,7 @@ def run(tier="quick", replay=None):
         if g is None:
             R.viol("R11.d", "R11.d|anchor-lost|%s" % ent, ent, "anchor lost: %s" % ent)
             continue
-        direct = {callee_of(t) for f2 in prog.family(ent) for _, t in f2.calls()}
+        direct = {callee_of(t) for f2 in prog.family(ent) for _, t in f2.calls()} | {callee_of(t) for _, t in view(g).calls()}
         R.check(all(w in direct for w in want), "R11.d", "R11.d|%s" % ent, "%s:%s" % (g.file, g.line),
                 "auto: classic programs are compiled with run_program_for_search_paths + the stage-2 `run` bootstrap",
                 "%s builds the classic compiler differently (missing %s)" % (ent, [w for w in want if w not in direct]), fn=ent)
